@@ -10,6 +10,7 @@ EXPLANATION = ('SCOPE rule F1 on the four merge_all observers and their queued s
                'synchronously at subscription re-enters InnerObserver::next, which re-acquires the same cell: RefCell panics, Mutex '
                'self-deadlocks. F4: slot accounting — outer next subscribes only into a free slot (counting it) and otherwise queues exactly once; an inner completion hands its slot to exactly one waiting task or gives it back; a queued task subscribes once and leaves the counter alone (decision tables over running - limit, abstract interpretation). F3: each observer method takes its decision and acts on it within one acquisition of the shared state (no check-then-act split). F2: the queue of waiting inner subscriptions is first-in-first-out (necessary for concat order and for merge_all(n) serving waiters in arrival order). Decides the "without panicking or blocking" clause and this ordering precondition; exactly-once delivery, order, order beyond F2 and the completion condition are not decided. Inner/outer error '
                'envelopes are checked under C03.S2. F5 the builders wire the concurrency limit their names promise: concat_all/concat_map = merge_all with limit 1, flatten/flat_map = no limit, merge_all(n) = n, in the local and the thread-safe form (operator trees of the builders).')
+TECHNIQUE = 'static analysis: lock-scope, slot-accounting and FIFO rules over MIR event graphs; operator-tree matching of the flattening builders (custom rustc_private driver)'
 ASSUMPTIONS = ['an inner observable may emit synchronously during actual_subscribe']
 
 TAGS = ['ops::merge_all::InnerObserver', 'ops::merge_all::InnerObserverThreads', 'ops::merge_all::OutsideObserver', 'ops::merge_all::OutsideObserverThreads']
